@@ -114,7 +114,7 @@ func VerifC03_EndToEnd() {
 		func() time.Duration { return 0 },
 		ih, silence.NewSilencer(sils, logger, eventrecorder.Recorder{}),
 		timeinterval.NewIntervener(nil), gm, nlog, nil)
-	giD := []time.Duration{time.Minute, 5 * time.Minute}[vfChoice("groupInterval", 1+vfTier())]
+	giD := time.Minute
 	gw, gi := model.Duration(0), model.Duration(giD)
 	ri := model.Duration(time.Nanosecond)
 	route := NewRoute(&config.Route{Receiver: "r", GroupBy: []model.LabelName{"alertname"}, GroupWait: &gw, GroupInterval: &gi, RepeatInterval: &ri}, nil)
@@ -150,7 +150,7 @@ func VerifC03_EndToEnd() {
 	}
 	maxS := 150
 	if vfTier() > 0 {
-		maxS = 600
+		maxS = 300
 	}
 	vfAdvance(vfSeconds("sourceFiresAfter", 1, maxS))
 	from := vfNow()
